@@ -4,6 +4,7 @@
 mod c02;
 mod c03;
 mod c05;
+mod c06;
 mod c07;
 mod c10;
 mod c13;
@@ -23,6 +24,7 @@ fn main() {
         "c03-worker" => c03::worker(&args),
         "c03-one" => c03::one(&args),
         "c05" => c05::main(&args),
+        "c06" => c06::main(&args),
         "c07" => c07::main(&args),
         "c10" => c10::main(&args),
         "c13" => c13::main(&args),
